@@ -513,11 +513,14 @@ impl CldbRunEnv {
                     let line_text = self.program_lines[use_line].to_string();
                     if use_col >= line_text.len() {
                         None
-                    } else if end_col >= line_text.len() {
-                        end_col = line_text.len();
-                        Some(line_text[use_col..end_col].to_string())
                     } else {
-                        Some(line_text[use_col..end_col].to_string())
+                        if end_col >= line_text.len() {
+                            end_col = line_text.len();
+                        }
+                        // Columns count tab stops and bytes, the line is text:
+                        // a range that is not made of whole characters (or is
+                        // empty backwards) shows nothing.
+                        line_text.get(use_col..end_col).map(|s| s.to_string())
                     }
                 }
             })
